@@ -33,6 +33,39 @@ CHECKS = {
  "C20": (True, "E1", E1 + "; serde_json as parser oracle; GFA link multiset normalised under strand flip compared with the string-level adjacency",
          "For every graph of the families: serde JSON round trip of BaseGraph/DebruijnGraph answers every query identically; GFA (write_gfa, to_gfa, to_gfa_with_tags) lists every node once, no non-adjacency, every adjacency exactly once (palindromic single-k-mer nodes lenient), K-1M overlaps; JSON export parses and lists every node and exactly the right-going links, with and without a rest object; all value kinds round-trip over pattern families.",
          "only the JSON serde format is available offline; serde_json trusted", "3/C20"),
+ "C05": (True, "E1", E1 + "; the memory budget (pass plan) is an enumerated environment answer (hook MEM_UNIT/LAST_PASSES): every plan the planner can produce is executed",
+         "Every read set within the bound x boundary-extension variants x labels is counted by the real filter_kmers under CountFilter(n) for every n, CountFilterSet(n) and a recording summarizer (exactly once / exact observation multiset / input order), for an enumerated set of memory budgets; the order-4 de Bruijn read (all 256 buckets) is run under EVERY budget so that all 31 pass plans occur; saturating counts; all 4^K present/absent lookups. Compared with the reference grouping.",
+         "hook replaces only the 10^9 constant; 'every pass count 1..256' is read as every pass count the planner can produce (31 values)", "3/C05"),
+ "C07": (True, "E1", E1 + "; every sequence up to length 10 (12) x p in {2,3,4} x k in p..p+5 x 6 score functions; interval laws by brute force",
+         "Scanner::scan (and simple_scan) on EVERY sequence up to the length bound for P in {Kmer2,3,4}, k = p..p+5 including k = p, six score functions including constant and heavily tied ones, three containers; all interval laws of the statement are decided by brute force on each result; structured long sequences for P in {5,8,16}.",
+         "content exhaustive for p <= 4 and length <= bound only", "3/C07"),
+ "C08": (True, "E1", E1 + "; every read (plus its reverse complement) and every pair of short reads x permutations x containers x rc mode",
+         "msp_sequence on every read up to the length bound (with its reverse complement as a second read in rc mode) and every ordered pair of short reads: the k-mer -> bucket map over the whole read set must be a function, pieces must be the chained exact substrings with the true flanking bases as extensions, for default and arbitrary permutations, all piece containers, rc mode on and off.",
+         "content exhaustive for p <= 4 only; permutation family: default, reversed, rotation, affine, two LCG (seed-dependent)", "3/C08"),
+ "C10": (True, "E1", E1 + "; complete value space for K <= 8 (12 in thorough) x every operation x every in-range argument; lane-pattern family for larger K",
+         "For all 20 instantiable k-mer types every operation of the statement is executed on ALL 4^K values (K <= 8; thorough K <= 12) with every in-range argument and compared with the plain string operation; K >= 10 (14): every value with <= 2 positions different from a constant background plus counter/LCG/palindromic patterns.",
+         "K >= 10: coverage over which lanes an operation touches, not over content (exhaustive=false there)", "3/C10"),
+ "C11": (True, "E2", E2 + "; state = (real k-mer, reference string); invariant = one raw representation per string + Eq/Ord/Hash against probes",
+         "stateright BFS over k-mer operation histories for all 20 types: to closure (all 4^K strings, every position) for K <= 6 (8), depth-bounded (3/4) otherwise; on every state the raw value must equal the canonical construction of its string and compare/hash like the string against ~200 probes; afterwards sort/dedup/group/binary-search/perfect-hash lookup on the reached values agree with the strings.",
+         "depth-bounded for larger K; action alphabet restricted to boundary positions there", "3/C11"),
+ "C12": (True, "E1", E1 + "; all k-mer values (K<=8), all 256 extension sets, all strings up to length 9 (11) through every container",
+         "Reverse-complement laws (position law, involution with raw equality, commutation with k-mer extraction and with extension sets, min_rc, min_rc_flip, is_palindrome) on all k-mer values for K <= 8 (12), all 256 Exts, and all strings up to the length bound plus structured longer ones through DnaString, slices at block-boundary offsets with rc nesting 1..3, and Lmers of capacity 1..6.",
+         "structured content beyond the length bound", "3/C12"),
+ "C13": (True, "E1", E1 + "; containers x 20 k-mer types x all strings up to length 7 (9) and structured strings to 134 x every position",
+         "Every extraction route (get_kmer at every position, first/last/term/both_term_kmer, iter_kmers, kmers_from_bytes/ascii, iter_kmer_exts with 6 boundary sets) of every container (DnaString, DnaBytes, DnaSlice, forward/rc slices at block-boundary offsets, Lmer capacities 1..6) for all 20 k-mer types is compared with the windows of the base vector.",
+         "content exhaustive for length <= 7 (9); longer sequences are counter/LCG/1-hot patterns crossing every block boundary", "3/C13"),
+ "C14": (True, "E2+E1", E2 + "; state = (real DnaString, Vec<u8>, depth)",
+         "stateright BFS 4 (5) operations deep from 23 start states over push/extend/push_bytes/set/clear/blank/rc/reverse/re-construction routes; every state is compared with the Vec<u8> model on every observer and must be raw-equal to the canonical construction (so Eq/Hash/Ord depend on the base sequence only); ordering against probes and prefix rules; PackedDnaStringSet on every list of <= 3 sequences from boundary lengths.",
+         "depth-bounded histories; lengths cut at 200", "3/C14"),
+ "C15": (True, "E2+E1", E2 + " (view compositions) + " + E1 + " (Hamming distance)",
+         "stateright BFS over compositions of slice()/rc() (depth 4/5) on all backing strings up to length 5 (7) and counter strings of length 7/33/70/300: each view must read, render (incl. Debug), convert, compare and yield k-mers like the model substring; hamming_dist for lengths 0..70 and around 96/128/256/1024/2048/4096(/5000), 5 offsets, both strands, difference sets none/all/first+last/EVERY single position.",
+         "depth-bounded compositions", "3/C15"),
+ "C16": (True, "E1", E1 + "; every byte value at every lane, both internal paths (hook FORCE_SCALAR_ASCII)",
+         "from_acgt_bytes with the vector path and (hook) the crate's own scalar fallback on every byte value at every lane on three backgrounds with several tails, every lane pair, every length 0..140, all strings over a 6-letter alphabet at the block seams; strict constructor on all strings up to length 7 (8) over a 6-letter alphabet plus non-ASCII chars; hashed-N constructor on all strings up to length 6 (7) x 3 names with a global (name,pos)->base table.",
+         "AVX2 must be present on the machine for the vector path to be exercised (reported in the evidence)", "3/C16"),
+ "C17": (True, "E1+E2", E1 + " (every capacity x length x write) + " + E2 + " (write histories)",
+         "Every Lmer capacity 1..6, every length 0..=max_len, three backgrounds: every set_mut, every set_slice_mut (position x run length x 4 words), rc, new, from_slice, k-mer extraction: only the addressed bases change and the raw value equals from_slice(expected); stateright BFS 4 (5) writes deep at word-boundary positions for capacities 1..3 (4, 6).",
+         "E2 part depth-bounded", "3/C17"),
 }
 
 NOT_BUILT_REASON = "check not built yet in this round (planned in DESIGN.md section 3); not claimed until it exists"
